@@ -225,10 +225,6 @@ def txRemove (m : AList (List Entry)) (path : String) (es : List Entry) : AList 
     let filtered := (m.getD e.key []).filter (fun x => x.file ≠ path)
     if filtered.isEmpty then m.erase e.key else m.set e.key filtered) m
 
-/-- the payee template loop of addFileIndex: overwrite. -/
-def ptAdd (m : AList String) (l : AList String) : AList String :=
-  l.foldl (fun m e => m.set e.1 e.2) m
-
 /-- least element of a list of paths (`""` for the empty list). -/
 def minPath : List String → String
   | [] => ""
@@ -244,6 +240,13 @@ def ptRestore (files : AList FileIdx) (m : AList String) (payee : String) : ALis
     | some t => m.set payee t
     | none => m
 
+/-- the payee template loop of addFileIndex.  `fixT = false` is index.go as pinned
+    (overwrite); `fixT = true` is the repaired code (take the template of the indexed file
+    with the smallest path, the new file included). -/
+def ptAdd (fixT : Bool) (files : AList FileIdx) (m : AList String) (l : AList String) :
+    AList String :=
+  l.foldl (fun m e => if fixT then ptRestore files m e.1 else m.set e.1 e.2) m
+
 /-- the payee template loop of removeFileIndex.  `fixT = false` is index.go as pinned
     (delete by payee key); `fixT = true` is the repaired code (delete, then restore from the
     files still indexed). -/
@@ -254,9 +257,10 @@ def ptRemove (fixT : Bool) (files : AList FileIdx) (m : AList String) (l : AList
     if fixT then ptRestore files m e.1 else m) m
 
 /-- `addFileIndex`. -/
-def addFileIndex (idx : WIndex) (path : String) (fi : FileIdx) : WIndex :=
+def addFileIndex (fixT : Bool) (idx : WIndex) (path : String) (fi : FileIdx) : WIndex :=
+  let files := idx.files.set path fi
   refreshDerived { idx with
-    files := idx.files.set path fi
+    files := files
     ac := addAll idx.ac fi.c.ac
     pc := addAll idx.pc fi.c.pc
     cc := addAll idx.cc fi.c.cc
@@ -264,7 +268,7 @@ def addFileIndex (idx : WIndex) (path : String) (fi : FileIdx) : WIndex :=
     tvc := tvAddAll idx.tvc fi.c.tvc
     txs := txAdd idx.txs fi.entries
     dc := addAll idx.dc (fi.c.dates.map fun d => (d, 1))
-    pts := ptAdd idx.pts fi.c.pts }
+    pts := ptAdd fixT files idx.pts fi.c.pts }
 
 /-- `removeFileIndex`. -/
 def removeFileIndex (fixT : Bool) (idx : WIndex) (path : String) (fi : FileIdx) : WIndex :=
@@ -286,7 +290,7 @@ def setFileIndex (fixT : Bool) (idx : WIndex) (path : String) (fi : FileIdx) : W
   let idx := match idx.files.get path with
     | some existing => removeFileIndex fixT idx path existing
     | none => idx
-  addFileIndex idx path fi
+  addFileIndex fixT idx path fi
 
 /-- `RemoveFile`. -/
 def removeFile (fixT : Bool) (idx : WIndex) (path : String) : WIndex :=
